@@ -636,3 +636,85 @@ Proof.
   assert (Hroom : forall c, total ins c <= shape nv nc c) by (intros [|]; unfold total, shape; subst nv nc; lia).
   specialize (HG Hroom). destruct HG as [_ _ Gwf _]. destruct (Gwf _ _ Hl) as [H _]. exact H.
 Qed.
+
+(* ---- added: completeness of the merged vertices, range safety of the code's cells, unit and append laws ---- *)
+Lemma merge_verts_length : forall ins, length (merge_verts ins) = list_sum (map (fun i => length (vs i)) ins).
+Proof.
+  induction ins as [|a r IH]; [reflexivity|].
+  rewrite merge_verts_cons, app_length, IH. reflexivity.
+Qed.
+
+Lemma verts_decompose : forall ins p, p < length (merge_verts ins) ->
+  exists k i v, nth_error ins k = Some i /\ v < length (vs i) /\ p = voff ins k + v.
+Proof.
+  induction ins as [|a r IH]; intros p Hp; [simpl in Hp; lia|].
+  rewrite merge_verts_cons, app_length in Hp.
+  destruct (Nat.lt_ge_cases p (length (vs a))) as [Hlt|Hge].
+  - exists 0, a, p. repeat split; auto.
+  - destruct (IH (p - length (vs a))) as [k [i [v [Hk [Hv Hp']]]]]; [lia|].
+    exists (S k), i, v. repeat split; auto. rewrite voff_cons. lia.
+Qed.
+
+Lemma merge_verts_app : forall a b, merge_verts (a ++ b) = merge_verts a ++ merge_verts b.
+Proof. intros a b. unfold merge_verts. rewrite map_app, concat_app. reflexivity. Qed.
+
+Lemma map_map_add0 : forall ll : list (list nat), map (map (fun v => v + 0)) ll = ll.
+Proof.
+  intros ll. rewrite <- (map_id ll) at 2. apply map_ext. intros l.
+  rewrite <- (map_id l) at 2. apply map_ext. intros v. lia.
+Qed.
+
+Lemma merge_single : forall i, merge_verts [i] = vs i /\ merge_cells [i] = cs i /\ merge_cells_spec [i] = cs i.
+Proof.
+  intros i. unfold merge_verts, merge_cells, merge_cells_spec. simpl.
+  rewrite !app_nil_r, map_map_add0. repeat split; reflexivity.
+Qed.
+
+Lemma cell_ok_mono : forall n m c, cell_ok n c -> n <= m -> cell_ok m c.
+Proof. unfold cell_ok. intros n m c H Hle. eapply Forall_impl; [|exact H]. simpl. intros v Hv. lia. Qed.
+
+Lemma max_list_lt : forall l n, 0 < n -> Forall (fun v => v < n) l -> max_list l < n.
+Proof.
+  induction l as [|x r IH]; intros n Hn H; simpl; [exact Hn|].
+  inversion H; subst. specialize (IH n Hn H3). lia.
+Qed.
+
+Lemma concat_cells_lt : forall (ll : list (list nat)) n, Forall (cell_ok n) ll -> Forall (fun v => v < n) (concat ll).
+Proof.
+  induction ll as [|c r IH]; intros n H; simpl; [constructor|].
+  inversion H; subst. apply Forall_app. split; [assumption | apply IH; assumption].
+Qed.
+
+(* The code's offset rule never overshoots: whatever the inputs reference, every merged cell points at an existing
+   merged vertex (inputs with at least one vertex and in-range cells). *)
+Lemma code_cells_in_range_from : forall ins prev,
+  Forall inp_ok ins -> Forall (fun i => 0 < length (vs i)) ins ->
+  Forall (cell_ok (prev + length (merge_verts ins))) (merge_cells_from prev ins).
+Proof.
+  induction ins as [|a r IH]; intros prev Hok Hne; simpl; [constructor|].
+  inversion Hok as [|? ? Ha Hr]; subst. inversion Hne as [|? ? Hna Hnr]; subst.
+  rewrite merge_verts_cons, app_length.
+  assert (Hshift : Forall (cell_ok (prev + length (vs a))) (map (map (fun v => v + prev)) (cs a))).
+  { apply Forall_forall. intros c Hc. apply in_map_iff in Hc as [c0 [Hc0 Hin]]. subst c.
+    unfold inp_ok in Ha. rewrite Forall_forall in Ha. specialize (Ha c0 Hin).
+    unfold cell_ok in *. apply Forall_forall. intros v Hv. apply in_map_iff in Hv as [v0 [Hv0 Hin0]]. subst v.
+    rewrite Forall_forall in Ha. specialize (Ha v0 Hin0). lia. }
+  apply Forall_app. split.
+  - eapply Forall_impl; [|exact Hshift]. intros c Hc. eapply cell_ok_mono; [exact Hc|lia].
+  - assert (Hmax : max_list (concat (map (map (fun v => v + prev)) (cs a))) + 1 <= prev + length (vs a)).
+    { pose proof (@max_list_lt (concat (map (map (fun v => v + prev)) (cs a))) (prev + length (vs a))) as H.
+      assert (Hc := @concat_cells_lt _ _ Hshift). specialize (H ltac:(lia) Hc). lia. }
+    specialize (IH (max_list (concat (map (map (fun v => v + prev)) (cs a))) + 1) Hr Hnr).
+    eapply Forall_impl; [|exact IH]. intros c Hc. eapply cell_ok_mono; [exact Hc|lia].
+Qed.
+
+Lemma code_cells_in_range : forall ins,
+  Forall inp_ok ins -> Forall (fun i => 0 < length (vs i)) ins ->
+  Forall (cell_ok (length (merge_verts ins))) (merge_cells ins).
+Proof. intros ins H1 H2. exact (@code_cells_in_range_from ins 0 H1 H2). Qed.
+
+Lemma merge_cells_from_length : forall ins prev, length (merge_cells_from prev ins) = length (concat (map cs ins)).
+Proof.
+  induction ins as [|a r IH]; intros prev; simpl; [reflexivity|].
+  rewrite !app_length, map_length, IH. reflexivity.
+Qed.
